@@ -5,6 +5,7 @@ from .. import scenarios
 hubprops.PLAN["C06"] = [
     {"fam": "repo-tests", "scen": "repo-tests", "num_q": 0, "num_t": 0},
     {"fam": "Identity", "num_q": 40, "num_t": 600, "depth": 100},
+    {"fam": "dynamic-double-wrap", "scen": scenarios.dynamic_double_wrap, "num_q": 0, "num_t": 0, "prof_q": 1, "prof_t": 2},
     {"fam": "connect-matrix", "scen": scenarios.connect_matrix, "num_q": 0, "num_t": 0, "prof_q": 1, "prof_t": 2},
 ]
 
